@@ -83,6 +83,8 @@ def build_ops():
     add('rmul', 1, true1, lambda s, a: 0.5 * a)
     add('transpose', 1, true1, lambda s, a: a.transpose())
     add('transpose(conj)', 1, true1, lambda s, a: a.transpose(conjugate=True), base='transpose')
+    add('transpose(cores=[0])', 1, true1, lambda s, a: a.transpose(cores=[0]), base='transpose')
+    add('transpose(cores=[-1])', 1, lambda s, i: O(s, i).order >= 2, lambda s, a: a.transpose(cores=[a.order - 1], conjugate=True), base='transpose')
     add('conj', 1, true1, lambda s, a: a.conj())
     add('rank_transpose', 1, true1, lambda s, a: a.rank_transpose())
     add('rank_tensordot(last)', 1, true1, lambda s, a: a.rank_tensordot(np.arange(1.0, 1 + a.ranks[-1] * 2).reshape(a.ranks[-1], 2), mode='last'),
@@ -97,8 +99,14 @@ def build_ops():
     add('qtt2tt', 1, lambda s, i: O(s, i).order >= 2, lambda s, a: a.qtt2tt([2] + [1] * (a.order - 2)))
     add('svd', 1, lambda s, i: isvec(O(s, i)) and O(s, i).order >= 2, lambda s, a: a.svd(1))
     add('svd(last)', 1, lambda s, i: isvec(O(s, i)) and O(s, i).order >= 3, lambda s, a: a.svd(a.order - 1), base='svd')
+    add('svd(no sweeps)', 1, lambda s, i: isvec(O(s, i)) and O(s, i).order >= 2, lambda s, a: a.svd(1, ortho_l=False, ortho_r=False), base='svd')
+    add('svd(ortho_r=False,max_rank)', 1, lambda s, i: isvec(O(s, i)) and O(s, i).order >= 2, lambda s, a: a.svd(a.order - 1, ortho_r=False, max_rank=1),
+        base='svd')
     add('pinv', 1, lambda s, i: isvec(O(s, i)) and O(s, i).order >= 2 and b1(O(s, i)) and admissible(O(s, i)),
         lambda s, a: a.pinv(1, threshold=1e-10))
+    add('pinv(no sweeps)', 1, lambda s, i: isvec(O(s, i)) and O(s, i).order >= 2 and b1(O(s, i)) and admissible(O(s, i)),
+        lambda s, a: a.pinv(1, threshold=1e-10, ortho_l=False, ortho_r=False), base='pinv', may_raise=True)
+    add('tt2qtt(threshold)', 1, true1, lambda s, a: a.tt2qtt([[m] for m in a.row_dims], [[n] for n in a.col_dims], threshold=1e-12), base='tt2qtt')
     add('diag', 1, lambda s, i: isvec(O(s, i)), lambda s, a: a.diag([0]))
     add('diag(all)', 1, lambda s, i: isvec(O(s, i)), lambda s, a: a.diag(list(range(a.order))), base='diag')
     add('squeeze', 1, lambda s, i: b1(O(s, i)) and any(m > 1 or n > 1 for m, n in zip(O(s, i).row_dims, O(s, i).col_dims)),
@@ -117,6 +125,11 @@ def build_ops():
     add('ortho_right(d-2..)!', 1, lambda s, i: O(s, i).order >= 3, lambda s, a: a.ortho_right(start_index=a.order - 2),
         base='ortho_right', **ip)
     add('ortho(max_rank=1)!', 1, true1, lambda s, a: a.ortho(max_rank=1), base='ortho', mode='free', **ip)
+    add('ortho(threshold)!', 1, true1, lambda s, a: a.ortho(threshold=1e-12), base='ortho', **ip)
+    add('ortho_left(max_rank=list)!', 1, lambda s, i: 'caps' in s.env and O(s, i).order == 3, lambda s, a: a.ortho_left(max_rank=s.env['caps']),
+        base='ortho_left', mode='free', **ip)
+    add('ortho_right(max_rank=list)!', 1, lambda s, i: 'caps' in s.env and O(s, i).order == 3, lambda s, a: a.ortho_right(max_rank=s.env['caps']),
+        base='ortho_right', mode='free', **ip)
     add('transpose(ow)!', 1, true1, lambda s, a: a.transpose(overwrite=True), base='transpose', mode='free', **ip)
     add('conj(ow)!', 1, true1, lambda s, a: a.conj(overwrite=True), base='conj', mode='free', **ip)
     add('rank_transpose(ow)!', 1, true1, lambda s, a: a.rank_transpose(overwrite=True), base='rank_transpose', mode='free', **ip)
@@ -146,10 +159,16 @@ def build_ops():
             and O(s, j).order == O(s, i).order
     en_ax = lambda tag: (lambda s, i, j: tagged(s, i, tag) and vec_for(s, i, j))
     en_axb = lambda tag: (lambda s, i, j, k: tagged(s, i, tag) and vec_for(s, i, j) and vec_for(s, i, k))
+    en_axb2 = lambda tag: (lambda s, i, j, k: O(s, i).order >= 2 and tagged(s, i, tag) and vec_for(s, i, j) and vec_for(s, i, k))
     add('sle.als', 3, en_axb('hpd'), lambda s, A, x, b: sle.als(A, x, b))
     add('sle.als(lu,2)', 3, en_axb('hpd'), lambda s, A, x, b: sle.als(A, x, b, repeats=2, solver='lu'), base='sle.als')
-    add('sle.mals', 3, en_axb('hpd'), lambda s, A, x, b: sle.mals(A, x, b))
-    add('sle.mals(max_rank)', 3, en_axb('hpd'), lambda s, A, x, b: sle.mals(A, x, b, threshold=0, max_rank=1), base='sle.mals')
+    add('sle.mals', 3, en_axb2('hpd'), lambda s, A, x, b: sle.mals(A, x, b))
+    add('sle.mals(lu)', 3, en_axb2('hpd'), lambda s, A, x, b: sle.mals(A, x, b, solver='lu'), base='sle.mals')
+    add('ode.implicit_euler(lu)', 3, en_axb('hpd'), lambda s, A, x, g: ode.implicit_euler(A * (-1.0), x, g, st, micro_solver='lu', normalize=0, progress=False),
+        base='ode.implicit_euler')
+    add('ode.trapezoidal_rule(lu,mals)', 3, en_axb2('hpd'),
+        lambda s, A, x, g: ode.trapezoidal_rule(A * (-1.0), x, g, st, tt_solver='mals', micro_solver='lu', normalize=2, progress=False), base='ode.trapezoidal_rule')
+    add('sle.mals(max_rank)', 3, en_axb2('hpd'), lambda s, A, x, b: sle.mals(A, x, b, threshold=0, max_rank=1), base='sle.mals')
     add('evp.als', 2, en_ax('hpd'), lambda s, A, x: evp.als(A, x, solver='eigh'))
     add('evp.als(eig,2 sweeps)', 2, en_ax('hpd'), lambda s, A, x: evp.als(A, x, repeats=2, conv_eps=0), base='evp.als')
     add('evp.als(number_ev=2)', 2, en_ax('hpd'), lambda s, A, x: evp.als(A, x, number_ev=2, solver='eigh'), base='evp.als')
@@ -163,7 +182,7 @@ def build_ops():
     add('ode.implicit_euler', 3, en_axb('hpd'), lambda s, A, x, g: ode.implicit_euler(A * (-1.0), x, g, st, normalize=0, progress=False))
     add('ode.implicit_euler(self-guess)', 2, en_ax('hpd'), lambda s, A, x: ode.implicit_euler(A * (-1.0), x, x, st, normalize=0, progress=False),
         base='ode.implicit_euler')
-    add('ode.implicit_euler(mals)', 3, en_axb('hpd'), lambda s, A, x, g: ode.implicit_euler(A * (-1.0), x, g, st, tt_solver='mals', normalize=2, progress=False),
+    add('ode.implicit_euler(mals)', 3, en_axb2('hpd'), lambda s, A, x, g: ode.implicit_euler(A * (-1.0), x, g, st, tt_solver='mals', normalize=2, progress=False),
         base='ode.implicit_euler')
     add('ode.trapezoidal_rule', 3, en_axb('hpd'), lambda s, A, x, g: ode.trapezoidal_rule(A * (-1.0), x, g, st, normalize=0, progress=False))
     add('ode.trapezoidal_rule(self-guess)', 2, en_ax('hpd'), lambda s, A, x: ode.trapezoidal_rule(A * (-1.0), x, x, st, normalize=0, progress=False),
@@ -278,6 +297,8 @@ def pool_builder(spec):
             env = {'x': rng.uniform(-1, 1, (2, 6)), 'y': rng.standard_normal((2, 6)), 'xi': np.arange(0, 4), 'yi': np.arange(1, 5),
                    'xi2': np.arange(1, 5), 'yi2': np.arange(2, 6), 'sigma': rng.standard_normal((2, 3, 6)),
                    'transitions': np.array([[1, 1, 2, 2, 1], [1, 3, 2, 1, 1], [2, 1, 2, 2, 1], [2, 3, 1, 1, 3]])}
+        elif spec.get('env') == 'caps':
+            env = {'caps': [1, 2, 2, 1]}
         elif spec.get('env') == 'chain':
             a = rng.standard_normal((2, 2)); env = {'S': a - a.T, 'L': rng.standard_normal((2, 2, 2)), 'I': np.eye(2), 'M': rng.standard_normal((2, 2, 2))}
         return System(objs, tags, env)
@@ -286,6 +307,7 @@ def pool_builder(spec):
 
 POOLS_SPEC = [
     {'name': 'rank1-vectors', 'objs': [{'rows': [2, 2, 2], 'ranks': [1, 1, 1, 1]}, {'rows': [2, 2, 2], 'ranks': [1, 1, 1, 1]}]},
+    {'name': 'rank-caps', 'env': 'caps', 'objs': [{'rows': [2, 2, 2], 'ranks': [1, 2, 2, 1]}, {'rows': [2, 2, 2], 'ranks': [1, 1, 1, 1]}]},
     {'name': 'mixed-ranks', 'objs': [{'rows': [2, 2, 2], 'ranks': [1, 1, 2, 1]}, {'rows': [2, 2, 2], 'ranks': [1, 2, 1, 1]}]},
     {'name': 'size1-modes', 'objs': [{'rows': [1, 2, 2], 'ranks': [1, 2, 1, 1]}, {'rows': [2, 2, 1], 'ranks': [1, 1, 2, 1]},
                                      {'rows': [2, 1, 2], 'ranks': [1, 1, 1, 1]}]},
@@ -296,6 +318,7 @@ POOLS_SPEC = [
                                  {'rows': [2, 2], 'ranks': [1, 2, 1]}]},
     {'name': 'qtt', 'objs': [{'rows': [4, 2], 'ranks': [1, 1, 1]}, {'rows': [4, 2], 'cols': [4, 2], 'ranks': [1, 2, 1]}]},
     {'name': 'solver', 'objs': [{'kind': 'hpd', 'rows': [2, 2]}, {'rows': [2, 2], 'ranks': [1, 2, 1]}, {'rows': [2, 2], 'ranks': [1, 1, 1]}]},
+    {'name': 'solver1', 'objs': [{'kind': 'hpd', 'rows': [3]}, {'rows': [3], 'ranks': [1, 1]}, {'rows': [3], 'ranks': [1, 1]}]},
     {'name': 'solver3', 'objs': [{'kind': 'hpd', 'rows': [2, 2, 2]}, {'rows': [2, 2, 2], 'ranks': [1, 2, 2, 1]},
                                  {'rows': [2, 2, 2], 'ranks': [1, 1, 1, 1]}]},
     {'name': 'solver-complex', 'objs': [{'kind': 'hpd', 'rows': [2, 2], 'c': True}, {'rows': [2, 2], 'ranks': [1, 2, 1], 'c': True},
